@@ -48,7 +48,10 @@ CHECKS = {
     "C03": _world("TestC03", _R["C03"], 250, 12000, extra_assume=["ics23/go v0.11.0 verifier (IavlSpec)"]),
     "C04": _world("TestC04", _R["C04"], 300, 15000, extra_assume=["ics23/go v0.11.0 verifier (IavlSpec)"]),
     "C07": _world("TestC07", _R["C07"], 600, 40000),
+    "C08": _world("TestC08", _R["C08"], 500, 30000),
+    "C09": _world("TestC09", _R["C09"], 300, 20000),
     "C12": _world("TestC12", _R["C12"], 700, 40000),
     "C13": _world("TestC13a", _R["C13"], 700, 40000),
     "C14": _world("TestC14", _R["C14"], 500, 30000),
+    "C15": _world("TestC15", _R["C15"], 600, 30000),
 }
